@@ -16,6 +16,7 @@ import (
 
 	"github.com/tinode/chat/server/auth"
 	"github.com/tinode/chat/server/media"
+	"github.com/tinode/chat/server/store"
 	"github.com/tinode/chat/server/store/types"
 )
 
@@ -175,6 +176,132 @@ func Harness_C16_serve_gates() {
 	}
 	if allowed && method == "GET" {
 		verifAssert(mh.downloads == 1, "authorised-GET-is-served")
+	}
+	verifReach("end")
+}
+
+// ---- upload endpoint
+
+type verifFilesT struct {
+	started, finished int
+}
+
+var verifFiles *verifFilesT
+
+func (f *verifFilesT) StartUpload(fd *types.FileDef) error { f.started++; return nil }
+func (f *verifFilesT) FinishUpload(fd *types.FileDef, success bool, size int64) (*types.FileDef, error) {
+	f.finished++
+	return fd, nil
+}
+func (f *verifFilesT) Get(fid string) (*types.FileDef, error)                 { return nil, nil }
+func (f *verifFilesT) DeleteUnused(olderThan time.Time, limit int) error     { return nil }
+func (f *verifFilesT) LinkAttachments(topic string, msgId types.Uid, attachments []string) error {
+	return nil
+}
+
+type verifUploadMedia struct {
+	verifMedia
+	uploads  int
+	received int64
+}
+
+func (m *verifUploadMedia) Upload(fdef *types.FileDef, file io.ReadSeeker) (string, int64, error) {
+	m.uploads++
+	n, _ := io.Copy(io.Discard, file)
+	m.received = n
+	return "/v0/file/s/" + fdef.Id, n, nil
+}
+
+func verifMultipart(fields map[string]string, order []string, fileBytes int) string {
+	var b strings.Builder
+	for _, k := range order {
+		b.WriteString("--XBOUNDARYX\r\nContent-Disposition: form-data; name=\"" + k + "\"\r\n\r\n" + fields[k] + "\r\n")
+	}
+	b.WriteString("--XBOUNDARYX\r\nContent-Disposition: form-data; name=\"file\"; filename=\"a.png\"\r\nContent-Type: image/png\r\n\r\n")
+	b.WriteString("\x89PNG\r\n\x1a\n")
+	for i := 8; i < fileBytes; i++ {
+		b.WriteByte('x')
+	}
+	b.WriteString("\r\n--XBOUNDARYX--\r\n")
+	return b.String()
+}
+
+// The gates of largeFileReceive: method, size limit, API key, credentials - before anything is stored.
+func Harness_C16_receive_gates() {
+	verifNewStore()
+	verifInitGlobals()
+	globals.apiKeySalt = []byte("0123456789abcdef0123456789abcdef")
+	if !verifIsSymbolicEngine() {
+		verifGoodKey = verifNativeGoodKey()
+	}
+	const limit = 600
+	globals.maxFileUploadSize = limit
+	outcome := &verifAuthOutcome{uid: types.Uid(7), level: auth.LevelAuth}
+	authOK := verifNondetBool("credentialsValid")
+	if !authOK {
+		outcome.err = types.ErrFailed
+	}
+	verifInstallStoreObj(outcome)
+	mh := &verifUploadMedia{}
+	verifMediaHandler = mh
+	verifFiles = &verifFilesT{}
+	store.Files = verifFiles
+
+	method := []string{"POST", "PUT", "GET", "DELETE", "PATCH"}[verifChoose("method", 5)]
+	hdr := http.Header{}
+	hdr.Set("Content-Type", "multipart/form-data; boundary=XBOUNDARYX")
+	fields := map[string]string{"id": "m1"}
+	order := []string{"id"}
+	key := ""
+	switch verifChoose("key", 3) {
+	case 1:
+		key = verifGoodKey
+	case 2:
+		key = "AQEAAAABAAD_rAp4DJh05a1HAwFT3A6K"
+	}
+	if key != "" {
+		if verifNondetBool("keyInHeader") {
+			hdr.Set("X-Tinode-APIKey", key)
+		} else {
+			fields["apikey"] = key
+			order = append(order, "apikey")
+		}
+	}
+	hasCred := verifNondetBool("credentialsPresent")
+	if hasCred {
+		secret := base64.StdEncoding.EncodeToString([]byte("tok"))
+		if verifNondetBool("credInHeader") {
+			hdr.Set("X-Tinode-Auth", "Token "+secret)
+		} else {
+			fields["auth"], fields["secret"] = "token", secret
+			order = append(order, "auth", "secret")
+		}
+	}
+	big := verifNondetBool("oversized")
+	fileBytes := 100
+	if big {
+		fileBytes = 3 * limit
+	}
+	body := verifMultipart(fields, order, fileBytes)
+	req := &http.Request{Method: method, Header: hdr, URL: &url.URL{Path: "/v0/file/u/"},
+		Body: io.NopCloser(strings.NewReader(body)), ContentLength: int64(len(body))}
+	w := &verifRW{hdr: http.Header{}}
+	largeFileReceive(w, req)
+
+	implemented := method == "POST" || method == "PUT"
+	allowed := implemented && key == verifGoodKey && hasCred && authOK && !big
+	if !allowed {
+		verifAssert(mh.uploads == 0 && verifFiles.started == 0, "refused-upload-stores-nothing")
+		verifAssert(w.code >= 400, "refused-upload-gets-an-error-status")
+	}
+	if !implemented {
+		verifAssert(w.code == http.StatusMethodNotAllowed, "unimplemented-method-refused")
+	} else if big {
+		verifAssert(mh.uploads == 0, "oversized-upload-refused")
+	}
+	if allowed {
+		verifAssert(mh.uploads == 1 && mh.received == int64(fileBytes), "authorised-upload-stored-byte-for-byte")
+		verifAssert(w.code == 200, "authorised-upload-acknowledged")
 	}
 	verifReach("end")
 }
